@@ -261,6 +261,56 @@ def _eval_safe(cfg):
         return {"harness_error": repr(ex)}
 
 
+# ----------------------------------------------------------------------------- rewrites that only parse in combination
+# "If the combined result of a pass would not parse, the pass leaves the text exactly as it was" - and ONLY then: a transaction whose members
+# are individually unparsable (an opening and a closing bracket, the two quotes of a string, the headers of an if / else turned into try /
+# except) is applied when the combined text parses.  (source, [rules: [(old text, new text, transaction or None)]])
+JOINT = [
+    ("x = [alpha, 2]\ny = 3\n", [[("[alpha", "(MARK_A", 1), ("2]", "MARK_B)", 1)]]),
+    ("x = [alpha, 2]\ny = 3\n", [[("[alpha", "(MARK_A", 1), ("2]", "MARK_B)", 1), ("y = 3", "MARK_C = 3", 2)]]),
+    ("x = [alpha, 2]\ny = 3\n", [[("[alpha", "(MARK_A", 1), ("2]", "MARK_B)", 1)], [("y = 3", "MARK_C = 3", None)]]),
+    ("s = 'text'\nt = 4\n", [[("'text", '"MARK_A', 7), ("'\n", '"  # MARK_B\n', 7)], [("t = 4", "MARK_C = 4", None)]]),
+    ("if cond:\n    a = 1\nelse:\n    a = 2\nz = 5\n", [[("if cond:", "try:  # MARK_A", 3), ("else:", "except MARK_B:", 3)], [("z = 5", "MARK_C = 5", None)]]),
+    ("v = {1: 2}\nw = 6\n", [[("{1", "[MARK_A", 2), (": 2}", ", MARK_B]", 2)], [("w = 6", "MARK_C = 6", 4)]]),
+    ("r = f(1,\n      2)\nq = 7\n", [[("f(1,", "MARK_A[1,", 1), ("2)", "MARK_B]", 1)], [("q = 7", "MARK_C = 7", 1)]]),
+]
+
+
+def evaluate_joint(case):
+    import pyrefact  # noqa: F401
+    from pyrefact import processing, core, logs
+    logs.set_level(100)
+    source, rules = case
+    funcs, items_all = [], []
+    for g, items in enumerate(rules):
+        ys = []
+        for old, new, txn in items:
+            a = source.index(old)
+            it = (core.Range(a, a + len(old)), new) + ((txn,) if txn is not None else ())
+            ys.append(it)
+            items_all.append((a, a + len(old), new))
+
+        def rule(source, _y=tuple(ys)):
+            yield from _y
+        rule.__name__ = f"rule{g}"
+        funcs.append(rule)
+    expected = source
+    for a, b, new in sorted(items_all, reverse=True):
+        expected = expected[:a] + new + expected[b:]
+    try:
+        ast.parse(expected)
+    except SyntaxError:
+        return {"harness_error": f"model text of {case!r} does not parse"}
+    try:
+        out = processing.fix(funcs[0], max_iter=1)(source) if len(funcs) == 1 else processing.chain(funcs, max_iter=1)(source)
+    except Exception as ex:  # noqa: BLE001
+        return {"what": f"pass raised {type(ex).__name__}: {ex}", "cls": "raises"}
+    missing = [new for _, _, new in items_all if re.search(r"MARK_[A-Z]", new).group() not in out]
+    if missing:
+        return {"what": f"no transaction overlaps, duplicates or touches an ignored line and the combined text parses, yet the pass dropped {missing}: {out!r}", "cls": "dropped-without-reason:jointly-valid", "out": out}
+    return None
+
+
 def run(tier, seed):
     cfgs, exhaustive_n = configs(tier, seed)
     ctx = mp.get_context("fork")
@@ -280,11 +330,20 @@ def run(tier, seed):
         seen_cls[r["cls"]] = seen_cls.get(r["cls"], 0) + 1
         failures.append({"id": repr(cfg), "cls": r["cls"], "input": {"ignored_line": cfg[0], "groups": cfg[1]}, "observed": r["what"], "output": r.get("out"),
                          "required": "C10: all-or-nothing, non-overlap, dropped-only-for-listed-reason, invalid pass leaves text unchanged"})
+    for case in JOINT:
+        r = evaluate_joint(case)
+        if r is None:
+            continue
+        if "harness_error" in r:
+            errors.append(r["harness_error"])
+            continue
+        failures.append({"id": "joint:" + repr(case)[:120], "cls": r["cls"], "input": {"source": case[0], "rules": case[1]}, "observed": r["what"], "output": r.get("out"),
+                         "required": "C10: a transaction is dropped only for a listed reason; a pass is abandoned only if its COMBINED result does not parse"})
     nontrivial = sum(1 for c in cfgs if sum(len(g) for g in c[1]) >= 2)
     res = {"name": "c10-marker-drive", "function": "processing.fix / processing.chain / _schedule_rewrites / _apply_rewrites / _do_rewrite",
            "contract": "C10 sentences on the output text + _do_rewrite prefix-unchanged",
            "space": f"filler module of 5 statements; rewrite kinds {KINDS} x 4 targets x transaction in (default,1,2); ALL ordered pairs in one rule x ignored-line in (none, line 1 in three spellings of the comment) = {exhaustive_n} configurations exhaustively; plus {len(cfgs) - exhaustive_n} sampled configurations of 3-4 rewrites over 1-2 rules (seeded)",
-           "bound": "<=2 rewrites exhaustive, 3-4 sampled", "evaluations": len(cfgs), "distinct_nontrivial": len({repr(c) for c in cfgs if sum(len(g) for g in c[1]) >= 2}),
+           "bound": "<=2 rewrites exhaustive, 3-4 sampled; 7 fixed schedules whose rewrites parse only in combination", "evaluations": len(cfgs) + len(JOINT), "distinct_nontrivial": len({repr(c) for c in cfgs if sum(len(g) for g in c[1]) >= 2}),
            "exhaustive": False, "failures": failures, "samples": [repr(cfgs[0]), repr(cfgs[-1])]}
     if errors:
         res["error"] = f"{len(errors)} harness errors, first: {errors[0]}"
